@@ -17,7 +17,7 @@ for _k, _kn in enumerate(['add_c32', 'add_string', 'addeq_c32', 'addeq_string', 
 job('string_set', 'str.set_utf8.self', 'h_str_set_utf8_self', ['C04'], solver='cadical', timeout=900, expect=[r'ST_string_set_utf8_self\.postcondition\.[1-4]'])
 SET2 = ['ST::string::string|(ST::char_buffer &&, ST::utf_validation_t)', 'ST::string::string|(const ST::char_buffer &, ST::utf_validation_t)', 'ST::string::set|(const char16_t *, size_t, ST::utf_validation_t)',
         'ST::string::set|(const char32_t *, size_t, ST::utf_validation_t)', 'ST::string::to_buffer|(ST::char_buffer &, bool, bool) const']
-unit('string_set2', functions=SET2, stubs=LEAF_STUBS + ['stp_validate_utf8', 'stp_cleanup_utf8_buffer', 'ST_utf16_to_utf8__pc16_sz_utf_validation_t', 'ST_utf32_to_utf8__pc32_sz_utf_validation_t', 'ST_utf8_to_latin_1__pc_sz_utf_validation_t_b'], spec=None, harness='harness/string_set2.c', include=INC)
+unit('string_set2', functions=SET2, stubs=LEAF_STUBS + ['stp_validate_utf8', 'stp_cleanup_utf8_buffer', 'ST_utf16_to_utf8__pc16_sz_utf_validation_t', 'ST_utf32_to_utf8__pc32_sz_utf_validation_t', 'ST_utf8_to_latin_1__pc_sz_utf_validation_t_b', 'stp_latin_1_measure_from_utf8', 'stp_latin_1_convert_from_utf8'], spec=None, harness='harness/string_set2.c', include=INC)
 job('string_set2', 'str.ctor_buffer', 'h_str_ctor_buffer', ['C18'], solver='cadical', timeout=900, expect=[r'ST_string_ctor_buffer\.postcondition\.[1-6]'])
 job('string_set2', 'str.set_wide', 'h_str_set_wide', ['C18'], solver='cadical', timeout=900, expect=[r'ST_string_set_wide\.postcondition\.[1-5]'])
 job('string_set2', 'str.to_buffer', 'h_str_to_buffer', ['C18', 'C04'], solver='cadical', timeout=900, expect=[r'ST_string_to_buffer\.postcondition\.[1-7]'])
